@@ -316,6 +316,17 @@ def _helper_kind(fn):
         return "expr"
     if all(r is body[-1] for r in rets):
         return "stmts"
+    # early returns mixed with refusing guards: a guarded expression (summarised: guards + one result expression)
+    only_guards = True
+    for n in ast.walk(fn):
+        if isinstance(n, _EFFECT_STMTS) and not isinstance(n, ast.Raise):
+            only_guards = False
+        elif isinstance(n, ast.Expr) and not _is_doc(n):
+            only_guards = False
+        elif isinstance(n, ast.Assign) and any(not isinstance(t, (ast.Name, ast.Tuple)) for t in n.targets):
+            only_guards = False
+    if only_guards and rets:
+        return "guarded"
     return None
 
 
@@ -336,14 +347,16 @@ def inline_new_helpers(tree, ref_funcs):
         if is_method and any(isinstance(d, ast.Name) and d.id in ("staticmethod", "classmethod", "property") for d in fn.decorator_list):
             continue
         expr = None
-        if kind == "expr":
+        if kind in ("expr", "guarded"):
             try:
                 sm = summarize(fn)
             except Exception:
                 continue
-            if sm.result is None or sm.guards or any(isinstance(n, ast.Name) and n.id.endswith("'") for n in ast.walk(sm.result)):
+            if sm.result is None or any(isinstance(n, ast.Name) and n.id.endswith("'") for n in ast.walk(sm.result)):
                 continue
-            expr = sm.result
+            if kind == "expr" and sm.guards:
+                continue
+            expr = sm.result if kind == "expr" else (list(sm.guards), sm.result)
         info[q] = (fn, kind, expr, is_method)
     if not info:
         return 0
@@ -395,6 +408,28 @@ def inline_new_helpers(tree, ref_funcs):
             elif isinstance(st, ast.Return) and isinstance(st.value, ast.Call):
                 call, target = st.value, "return"
             k = match(call, cls) if call is not None else None
+            if k and info[k[0]][1] == "guarded":
+                fn, _, (guards_, expr_), is_method = info[k[0]]
+                m = _bind_call(fn, call, is_method)
+                if m is not None:
+                    if is_method:
+                        m[_simple_params(fn)[0]] = k[1]
+                    new_stmts = []
+                    for g_ in guards_:
+                        new_stmts.append(ast.If(test=_subst(g_, m), body=[ast.Raise(exc=ast.Call(func=ast.Name(id="Exception", ctx=ast.Load()), args=[], keywords=[]), cause=None)], orelse=[]))
+                    val = _subst(expr_, m)
+                    if target == "return":
+                        new_stmts.append(ast.Return(value=val))
+                    elif target is not None:
+                        new_stmts.append(ast.Assign(targets=copy.deepcopy(target), value=val))
+                    else:
+                        new_stmts.append(ast.Expr(value=val))
+                    for x in new_stmts:
+                        ast.copy_location(x, st)
+                        ast.fix_missing_locations(x)
+                    out.extend(new_stmts)
+                    count += 1
+                    continue
             if k and info[k[0]][1] == "stmts":
                 fn, _, _, is_method = info[k[0]]
                 m = _bind_call(fn, call, is_method)
@@ -547,6 +582,33 @@ def inline_new_temps(tree, ref_mod):
                     pass
             if mutated:
                 n_uses = 0
+            # soundness of moving the expression to its uses
+            has_call = any(isinstance(x, (ast.Call, ast.Await)) for x in ast.walk(asg.value))
+            has_deref = any(isinstance(x, (ast.Subscript, ast.Attribute, ast.Starred)) for x in ast.walk(asg.value))
+            use_stmts = [k for k, st in enumerate(region) if any(isinstance(x, ast.Name) and x.id == nm and isinstance(x.ctx, ast.Load)
+                                                                  for x in ast.walk(st))]
+            if has_call:
+                # a call may have effects: it may only move into the statement that follows it directly, once
+                if use_stmts != [0] or n_uses != 1 or isinstance(region[0], (ast.For, ast.While, ast.If, ast.With, ast.Try)):
+                    n_uses = 0
+            elif has_deref and use_stmts:
+                # reads of object state: nothing between the definition and the last use may change the objects involved
+                between = region[:use_stmts[-1]]
+                for st in between:
+                    for x in ast.walk(st):
+                        if isinstance(x, ast.Call):
+                            touched = {y.id for a in list(x.args) + [k.value for k in x.keywords] for y in ast.walk(a) if isinstance(y, ast.Name)}
+                            if isinstance(x.func, ast.Attribute):
+                                touched |= {y.id for y in ast.walk(x.func.value) if isinstance(y, ast.Name)}
+                            if touched & operands:
+                                n_uses = 0
+                        elif isinstance(x, (ast.Assign, ast.AugAssign, ast.Delete)):
+                            for t in (x.targets if isinstance(x, (ast.Assign, ast.Delete)) else [x.target]):
+                                b = t
+                                while isinstance(b, (ast.Subscript, ast.Attribute)):
+                                    b = b.value
+                                if isinstance(b, ast.Name) and b.id in operands and b is not t:
+                                    n_uses = 0
             if later_store or in_loop or uses_before or nm in operands or n_uses == 0:
                 cands.pop(nm)
         if not cands:
